@@ -23,7 +23,7 @@ ASSUMPTIONS = [
     "Kaiser reference: np.kaiser(L+1, pi*alpha(psll))[:-1] with the harness's own alpha(psll) cubic",
     "cuda backend through NUMBA_ENABLE_CUDASIM=1 (small N only)",
 ]
-DECIDING_COUNTERS = ["bins_compared", "single_bin_compared", "band_pairs", "kernel_events"]
+DECIDING_COUNTERS = ["bins_compared", "single_bin_compared", "band_pairs"]  # probe events: evidence only
 MIN_NONTRIVIAL = {"quick": 120, "thorough": 1500}
 JOBS = {"quick": 10, "thorough": 16}
 
